@@ -15,14 +15,24 @@ whole byte stream as  ok / local / bad / open  and, for ok, gives addresses and 
 length.  'open' = the specification (or the task's reading of it) leaves well-formedness
 open (leading zeros, IPv4-in-IPv6 text, AF_x with UNSPEC transport, embedded NUL in a unix
 path): generated, run, judged only on "no exception escapes" and the consumption bound.
+
+Edge level: the same three mix-ins (static subclass and mixin()) in front of the real SmtpEdge / SmtpSession /
+Server with a recording queue, banner validator and PTR-lookup stand-in.  The header is followed by a complete
+SMTP dialogue, either already on the wire (pipelined) or sent only after the server's banner (what a client
+behind a proxy does: a parser that wants one byte more than the header blocks).  Judged: the address the
+session, the PTR lookup and the queued envelope see is the header's (invalid (None, None) after a malformed
+header -- never the proxy's own or one taken from the bad header), the dialogue after the header arrives
+intact, LOCAL starts no session and writes nothing, nothing but SMTP-layer errors on trailing garbage escapes.
 """
 import re
 import random
 import struct
 import ipaddress
 
-from vf.sock import ScriptSocket, cut
+from vf.sock import ScriptSocket, WouldBlock, cut
 from slimta.edge import EdgeServer
+import slimta.edge.smtp as _edge_smtp
+from slimta.edge.smtp import SmtpEdge, SmtpValidators
 from slimta.util import proxyproto as PP
 from slimta.util.proxyproto import ProxyProtocol, ProxyProtocolV1, ProxyProtocolV2
 
@@ -35,7 +45,10 @@ LEVEL_TEXT = ('Real ProxyProtocol/V1/V2 handlers run on a scripted socket whose 
               'corpus of 12 valid headers, enumerated bad fields (ports, addresses, families, separators, line '
               'ends, v2 version/command/family/protocol nibbles, lengths below the family minimum), over-long '
               'lines and random garbage; each stream through the dedicated parser, the other parser and the '
-              'auto-detecting one. Every evaluation is compared with a strict reference parser. Held = held on '
+              'auto-detecting one. Every evaluation is compared with a strict reference parser. A selection of the '
+              'cases (all directed well-formed/LOCAL/open ones, 1 in 12 of the rest; 1 in 3 thorough) also runs '
+              'through the real SmtpEdge behind each mix-in with an SMTP dialogue after the header (pipelined '
+              'and banner-first). Held = held on '
               'the evaluations reported; not a proof for all headers.')
 LEVEL_NOTE = ('Trusted: ScriptSocket, the reference parser in this file (written from the haproxy spec), the '
               'classification of spec-open inputs as unjudged.')
@@ -44,7 +57,9 @@ RULE = ('case = one byte stream (header [+ payload], EOF after it); it is run th
         '(V1, V2, auto-detect) x read patterns (whole, always-1-byte, cut at header end and one byte either side, '
         'seeded random cuts; every single cut in thorough for well-formed) = evaluations. non-trivial & distinct = '
         'distinct stream that is either a well-formed header followed by non-empty payload and delivered in >= 2 '
-        'reads, or a corrupted / truncated / malformed header')
+        'reads, or a corrupted / truncated / malformed header. edge: selected cases x 3 mix-ins (static / mixin() '
+        'alternating) x (pipelined whole, pipelined seeded cuts, and for well-formed/LOCAL headers banner-first '
+        'whole / seeded cuts / always-1) on the real SmtpEdge = evaluations')
 ASSUMPTIONS = ['ScriptSocket.recv_into never returns more than requested and returns 0 at end of stream (EOF)',
                'unknown_pp_source_address and invalid_pp_source_address are both (None, None) in the library, so '
                '"UNKNOWN accepted" and "rejected as invalid" are not distinguishable at the handler and are not '
@@ -53,11 +68,16 @@ ASSUMPTIONS = ['ScriptSocket.recv_into never returns more than requested and ret
                'UNSPEC transport or vice versa) are judged only on no-escape and the consumption bound; a unix '
                'path with an embedded NUL may be reported cut at the first NUL, with only the padding stripped, '
                'or in full',
+               'edge level: slimta.edge.smtp.PtrLookup is replaced by a recording stand-in (no resolver threads); an '
+               'exception raised by the SMTP layer on the garbage that follows a malformed header is not judged here; '
+               'a v2 AF_UNIX source reaches the SMTP session as a bytes path (its client ip becomes address[0], an '
+               'int; an unnamed source, empty path, makes SmtpSession raise IndexError): recorded, not judged',
                'v2 LOCAL: the specification says the family byte is ignored and the block skipped; the library\'s '
                'documented behaviour (drop the connection) is what the statement accepts, so LOCAL with any '
                'family/length whose declared block is present must be dropped']
 REQUIRED_HITS = ['handler-address-compared', 'consumption-compared', 'malformed-judged', 'local-drop-judged',
-                 'autodetect-parser-compared', 'destination-compared']
+                 'autodetect-parser-compared', 'destination-compared',
+                 'edge-address-compared', 'edge-smtp-dialogue-compared', 'edge-banner-first-judged', 'edge-local-judged', 'edge-bad-header-judged']
 SHARDS = {'quick': 8, 'thorough': 16}
 BUDGET = {'quick': 50, 'thorough': 800}
 
@@ -458,6 +478,8 @@ def gen_all(tier, seed):
     for fb in (0x10, 0x20, 0x30, 0x01, 0x02):
         yield case('open', v2hdr(1, fb, blkux(b'/a', b'/b')))
     yield case('open', v2hdr(1, 0x31, blkux(b'/a\x00b', b'\x00abstract')))
+    yield case('wf', v2hdr(1, 0x31, blkux(b'', b'/d')), b'EHLO x\r\n', name='v2-unix-unnamed-source')
+    yield case('wf', v2hdr(1, 0x32, blkux(b'', b'')), b'EHLO x\r\n', name='v2-unix-unnamed-both')
 
     # ---- malformed: every single-byte substitution and every truncation of the corpus
     for name, hdr in corpus():
@@ -560,10 +582,239 @@ def gen_all(tier, seed):
         yield case('garbage', g, b'' if rnd.random() < 0.5 else b'\r\nEHLO x\r\n')
 
 
+EDGE_EVERY = {'quick': 12, 'thorough': 3}
+
+
 def gen_cases(tier, seed, shard, nshards):
     for n, c in enumerate(gen_all(tier, seed)):
         if n % nshards == shard:
+            # the real SmtpEdge behind the mix-in: every directed well-formed / LOCAL / spec-open case, a
+            # fixed fraction of the others (index-based: the selection does not depend on the shard count)
+            c['edge'] = len(c['hdr']) <= 2000 and (c['kind'] in ('wf', 'wf-local', 'open')
+                                                   or (n // 7) % EDGE_EVERY[tier] == 0)
             yield c
+
+
+# --------------------------------------------------------------------------- real SMTP edge behind the mix-ins
+
+SESSION = (b'EHLO client.test\r\nMAIL FROM:<a@b.test>\r\nRCPT TO:<c@d.test>\r\nDATA\r\n'
+           b'Subject: x\r\n\r\nbody line\r\n.\r\nQUIT\r\n')
+PEER = ('192.0.2.9', 999)
+_EDGE = {'banner': [], 'ptr': [], 'env': []}
+
+
+class RecPtr(object):
+    """Stands in for slimta.edge.smtp.PtrLookup (no resolver threads); records the address it is asked about."""
+
+    def __init__(self, ip):
+        _EDGE['ptr'].append(ip)
+
+    def start(self):
+        pass
+
+    def finish(self, runtime=None):
+        return None
+
+    def kill(self, block=True):
+        pass
+
+
+_edge_smtp.PtrLookup = RecPtr
+
+
+class RecValidators(SmtpValidators):
+    def handle_banner(self, reply, address):
+        _EDGE['banner'].append(address)
+
+
+class RecQueue(object):
+    def enqueue(self, envelope):
+        _EDGE['env'].append((envelope.sender, list(envelope.recipients), dict(envelope.client),
+                             bytes(envelope.message or b'')))
+        return [(envelope, 'id-%d' % len(_EDGE['env']))]
+
+
+class EdgeV1(ProxyProtocolV1, SmtpEdge):
+    pass
+
+
+class EdgeV2(ProxyProtocolV2, SmtpEdge):
+    pass
+
+
+class EdgeAuto(ProxyProtocol, SmtpEdge):
+    pass
+
+
+EDGE_STATIC = {'v1': EdgeV1, 'v2': EdgeV2, 'auto': EdgeAuto}
+
+
+def make_edge(mode, dynamic):
+    kw = dict(hostname='edge.test', validator_class=RecValidators)
+    if dynamic:
+        e = SmtpEdge(None, RecQueue(), **kw)
+        MIXIN[mode].mixin(e)
+        return e
+    return EDGE_STATIC[mode](None, RecQueue(), **kw)
+
+
+def run_edge_one(mode, dynamic, hdr, cuts, schedule):
+    """schedule 'pipelined': header and the whole SMTP session are on the wire before the edge reads;
+    'banner-first': only the header is there, the client speaks after it has seen the server's first bytes
+    (what an SMTP client behind a proxy does) -- a parser that wants one byte more than the header blocks."""
+    for v in _EDGE.values():
+        del v[:]
+    if schedule == 'pipelined':
+        ss = ScriptSocket(cut(hdr + SESSION, cuts), eof=True, peer=PEER)
+    else:
+        def on_send(sock, data):
+            if not sock.eof:
+                sock.feed(SESSION)
+                sock.eof = True
+        ss = ScriptSocket(cut(hdr, cuts), eof=False, on_send=on_send, peer=PEER)
+    edge = make_edge(mode, dynamic)
+    exc = None
+    try:
+        edge.handle(ss, PEER)
+    except WouldBlock as e:
+        exc = e
+    except Exception as e:
+        exc = e
+    return ss, {k: list(v) for k, v in _EDGE.items()}, exc
+
+
+def ip_of(x):
+    try:
+        return ipaddress.ip_address(x)
+    except ValueError:
+        return ('unparseable', x)
+
+
+def judge_edge(mode, ref, ss, seen, exc, schedule, exact):
+    out = []
+    ver = 'v%d' % ref['ver'] if ref.get('ver') else mode
+    kind = ref['kind']
+    banner, envs, wire = seen['banner'], seen['env'], b''.join(ss.sent)
+    if isinstance(exc, WouldBlock):
+        return [('edge/blocks-after-complete-header/%s' % ver,
+                 'the edge waits for more input although the complete header has arrived and the client is waiting '
+                 'for the banner (%d bytes consumed, header is %d)' % (ss.consumed, ref.get('hlen', -1)))]
+    if exc is not None:
+        if banner and not (kind in ('ok', 'local') and exact):
+            return []
+        if kind == 'ok' and ref['fam'].startswith('UNIX'):
+            return []       # SmtpSession indexes the bytes path (address[0]); an unnamed source raises: recorded       # raised by the SMTP layer on the garbage that follows a bad header: not C18's business
+        return [('edge/exception-escapes/%s/%s/%s' % (ver, type(exc).__name__, kind),
+                 '%s escapes the real SmtpEdge.handle (%s)' % (type(exc).__name__, exc))]
+    if len(banner) > 1:
+        return [('unclassified/edge-banner-twice', 'banner handler called %d times' % len(banner))]
+    if kind == 'local':
+        if banner or wire or envs:
+            out.append(('edge/local-not-dropped', 'LOCAL header: session ran (banner %r, %d bytes written, %d '
+                        'messages)' % (banner, len(wire), len(envs))))
+        return out
+    if kind == 'open':
+        return out
+    if kind == 'bad':
+        if not banner:
+            if ref.get('cmd') != 0:
+                out.append(('edge/bad-header-dropped/%s' % ver,
+                            'malformed non-LOCAL header: no SMTP session was started'))
+            return out
+        if banner[0] != INVALID or any(e[2].get('ip') is not None for e in envs) or \
+                any(p is not None for p in seen['ptr']):
+            out.append(('edge/address-after-bad-header/%s' % ver,
+                        'malformed header (%s): the SMTP session ran with address %r (client ip %r, PTR lookups %r) '
+                        'instead of the invalid address'
+                        % (ref['reason'], banner[0], [e[2].get('ip') for e in envs], seen['ptr'])))
+        if not wire.startswith(b'220'):
+            out.append(('edge/bad-header-no-banner/%s' % ver, 'session started but first bytes are %r' % wire[:20]))
+        return out
+    # ok
+    fam = ref['fam']
+    if not banner:
+        return [('edge/wellformed-dropped/%s/%s' % (ver, fam), 'well-formed header: no SMTP session (wrote %r)'
+                 % wire[:40])]
+    if not same(norm(banner[0]), ref['src']):
+        out.append(('edge/source-differs/%s/%s' % (ver, fam), 'session address %r, header encodes %r'
+                    % (banner[0], ref['src'])))
+    if not exact:
+        return out
+    if len(envs) != 1 or envs[0][0] != 'a@b.test' or envs[0][1] != ['c@d.test'] or b'body line' not in envs[0][3] \
+            or not wire.startswith(b'220') or b'\r\n221 ' not in wire:
+        out.append(('edge/smtp-session-damaged/%s/%s' % (ver, fam),
+                    'the SMTP dialogue after the header did not go through intact: %d messages, wire %r'
+                    % (len(envs), wire[:200])))
+    elif fam.startswith('INET') or fam.startswith('TCP'):
+        if ip_of(envs[0][2].get('ip')) != ref['src'][0] or [ip_of(p) for p in seen['ptr']] != [ref['src'][0]]:
+            out.append(('edge/client-ip-differs/%s/%s' % (ver, fam), 'envelope client ip %r, PTR lookups %r, header '
+                        'encodes %r' % (envs[0][2].get('ip'), seen['ptr'], ref['src'])))
+    elif fam in ('UNKNOWN', 'UNSPEC'):
+        if envs[0][2].get('ip') is not None:
+            out.append(('edge/client-ip-differs/%s/%s' % (ver, fam), 'envelope client ip %r for an unknown source'
+                        % (envs[0][2].get('ip'),)))
+    return out
+
+
+def run_edge(case, R, found):
+    hdr = case['hdr']
+    rnd = random.Random(case['rs'] ^ 0x5eed)
+    stream = hdr + SESSION
+    for mode in ('v1', 'v2', 'auto'):
+        ref = reference(mode, stream)
+        kind = ref['kind']
+        plans = [('pipelined', 'whole', [])]
+        n = len(stream)
+        k = rnd.randint(1, min(n - 1, 10))
+        plans.append(('pipelined', 'random', sorted(rnd.sample(range(1, n), k))))
+        # the header ends where the case's header bytes end (otherwise bytes of the SMTP dialogue belong to the
+        # header -- a truncated line completed by 'EHLO ...CRLF', a corrupted v2 length -- and only the address
+        # is judged)
+        exact = ref.get('hlen') == len(hdr)
+        if kind in ('ok', 'local') and exact:
+            hl = ref['hlen']
+            plans.append(('banner-first', 'whole', []))
+            if hl > 2:
+                plans.append(('banner-first', 'random', sorted(rnd.sample(range(1, hl), min(hl - 1, rnd.randint(1, 6))))))
+            if hl <= 300:
+                plans.append(('banner-first', 'always-1', list(range(1, hl))))
+        for i, (schedule, label, cuts) in enumerate(plans):
+            R.eval()
+            ss, seen, exc = run_edge_one(mode, i % 2 == 0, hdr, cuts, schedule)
+            probs = judge_edge(mode, ref, ss, seen, exc, schedule, exact)
+            R.observe('edge-outcome', (mode, kind, schedule, bool(seen['banner']), len(seen['env']),
+                                       type(exc).__name__ if exc is not None else None))
+            R.hit('edge-session-judged')
+            if kind == 'ok':
+                R.hit('edge-address-compared')
+                if exact:
+                    R.hit('edge-smtp-dialogue-compared')
+                if schedule == 'banner-first':
+                    R.hit('edge-banner-first-judged')
+            elif kind == 'local':
+                R.hit('edge-local-judged')
+            elif kind == 'bad':
+                R.hit('edge-bad-header-judged')
+                if exc is not None and seen['banner']:
+                    R.count('edge-smtp-layer-exception-after-bad-header/%s' % type(exc).__name__)
+            if kind == 'ok' and ref['fam'].startswith('UNIX'):
+                if exc is not None and not isinstance(exc, WouldBlock):
+                    R.count('unjudged/edge-unix-source: SMTP session raises %s' % type(exc).__name__)
+                elif seen['env']:
+                    R.count('unjudged/edge-unix-source: client ip is %s'
+                            % type(seen['env'][0][2].get('ip')).__name__)
+            for mech, what in probs:
+                if (mech, mode) not in found:
+                    found[(mech, mode)] = ['%s [%s edge, %s]' % (what, mode, schedule),
+                                           {'mode': mode, 'header': hdr[:400], 'schedule': schedule,
+                                            'read_pattern': label, 'cuts': cuts[:40], 'reference': ref,
+                                            'banner_addresses': seen['banner'], 'ptr_lookups': seen['ptr'],
+                                            'envelopes': [(e[0], e[1], e[2].get('ip')) for e in seen['env']],
+                                            'wire': b''.join(ss.sent)[:300], 'consumed': ss.consumed,
+                                            'kind': case['kind'], 'also_under_read_patterns': []}]
+                else:
+                    found[(mech, mode)][1]['also_under_read_patterns'].append(label)
+                R.count('violating-evaluations')
 
 
 # --------------------------------------------------------------------------- execution + oracle
@@ -729,5 +980,7 @@ def run_case(case, R):
                 R.sample({'mode': mode, 'header': hdr[:120], 'payload': payload[:30], 'cuts': cuts,
                           'handler_got': calls[0][0] if calls else None, 'consumed': ss.consumed,
                           'header_len': ref['hlen'], 'reads': ss.recv_calls})
+    if case.get('edge'):
+        run_edge(case, R, found)
     for (mech, mode), (what, wit) in sorted(found.items()):
         R.violation(mech, what, wit)
